@@ -257,7 +257,8 @@ func ReadPatchString(s string) (Diff, error) {
 			diff = append(diff, e)
 		} else {
 			i := len(diff) - 1
-			if diff[i].Path.JsonNode().Equals(e.Path.JsonNode()) && !hasContext(e) {
+			if diff[i].Path.JsonNode().Equals(e.Path.JsonNode()) && !hasContext(e) &&
+				!(len(e.Remove) > 0 && len(diff[i].Add) > 0) {
 				diff[i].Remove = append(diff[i].Remove, e.Remove...)
 				if isAppend(e.Path) {
 					// Appends ("-") keep their order
